@@ -643,6 +643,17 @@ def build_gfa2(r, opts=None):
                 lines.append(["U", [pid, " ".join(items)], tags("U")])
                 if pid != "*":
                     named["U"].append(pid)
+    if o.get("split_groups"):
+        # the definition of a named group spread over two lines with the same identifier (documented: the items
+        # are concatenated in arrival order, the tags united); the first of the two lines keeps the tags
+        for l in list(lines):
+            if l[0] in "OU" and l[1][0] != "*" and " " in l[1][1] and fair(r, o["split_groups"]):
+                its = l[1][1].split(" ")
+                k = r.randint(1, len(its) - 1)
+                if l[0] == "U" and all(x in named["G"] for x in its[:k]) or l[0] == "O" and all(x[:-1] in named["G"] for x in its[:k]):
+                    continue
+                l[1][1] = " ".join(its[:k])
+                lines.insert(lines.index(l) + 1 + r.randint(0, 2), [l[0], [l[1][0], " ".join(its[k:])], []])
     if o["custom"]:
         for _ in range(r.randint(0, 2)):
             nf = r.randint(0, 3)
@@ -663,6 +674,8 @@ def build_gfa2(r, opts=None):
                 else:
                     fields.append(choice(r, ["xx:B:c,300", "xx:i:1x", "xx:J:{bad", "xx:H:0G", "xx:f:1.2.3", "xx:A:ab", "xx:B:q,3"]))
             lines.append([choice(r, CUSTOM_TYPES), fields, tg])
+            if o.get("twin_custom") and fair(r, o["twin_custom"]):
+                lines.append([lines[-1][0], list(fields), [list(t) for t in tg]])  # the same custom record once more
     if o["comments"]:
         for _ in range(r.randint(0, 2)):
             lines.insert(r.randint(0, len(lines)), ["#", [choice(r, [" a comment", "nospace", "  two", ""])], []])
